@@ -29,7 +29,10 @@ library effect of Figure.savefig — a path without extension is *not* the file
 written (matplotlib appends rcParams["savefig.format"]); where the written
 path is composed with an extension obtained from os.path.splitext, that
 extension must be provably non-empty at the sink (guard or default), else the
-prompt was about a different file than the one replaced.
+prompt was about a different file than the one replaced. C17.8: library
+effect of the pandas writers (to_<fmt>, ExcelWriter) — they expand a leading
+"~" of a str path themselves, so the term they receive must be expanded /
+absolute already, or the prompt must have been about expanduser(<that term>).
 """
 MANIFEST = dict(
     text="Decides, for every file-creating call site in evo/ (complete "
@@ -61,7 +64,7 @@ ASSUMPTIONS = ["A2 (library effect table complete for the APIs evo uses)",
                "main_fig --to_html and main_ipython are outside the "
                "property's command list"]
 FLOORS = {"C17.1": 8, "C17.2": 8, "C17.3": 17, "C17.4": 4, "C17.6": 1,
-          "C17.7": 10}
+          "C17.7": 10, "C17.8": 2}
 
 CHK = "evo.tools.user.check_and_confirm_overwrite"
 CONFIRM = "evo.tools.user.confirm"
@@ -196,13 +199,61 @@ def _confirm_flags(formula: T) -> List[T]:
     return flags
 
 
+# library effect: pandas writers expand a leading "~" of a str path on their
+# own (pandas.io.common._expand_user); open(), numpy, zipfile, matplotlib and
+# pickle do not.
+PANDAS_KINDS = ("pandas.ExcelWriter", "DataFrame.to_<fmt>", ".to_csv",
+                ".to_excel", ".to_latex", ".to_json", ".to_html",
+                ".to_pickle", ".to_hdf")
+TILDE_FUNCS = ("os.path.expanduser", "os.path.abspath", "os.path.realpath")
+TILDE_METHODS = (".expanduser", ".resolve", ".absolute")
+
+
+def _is_expanded(x: T, of: Optional[T] = None) -> bool:
+    """x is a call that leaves no leading "~" (optionally: applied to `of`)"""
+    if x.op != "call":
+        return False
+    name = tm.callee_name(x)
+    if name in TILDE_FUNCS:
+        a = x.args[1]
+        return of is None or bool(a and a[0] is of)
+    if name in TILDE_METHODS:
+        recv = x.args[0].args[0] if x.args[0].op == "attr" else None
+        return of is None or recv is of
+    return False
+
+
+def tilde_stable(p: T) -> bool:
+    """the path term cannot start with "~" whenever it is a str / PathLike"""
+    if p.op == "ite":
+        c, a, b = p.args
+        if c.op == "call" and tm.callee_name(c) == "builtins.isinstance":
+            return tilde_stable(a)     # b: not a path (open handle / buffer)
+        if c.op == "not" and c.args[0].op == "call" and \
+                tm.callee_name(c.args[0]) == "builtins.isinstance":
+            return tilde_stable(b)
+        return tilde_stable(a) and tilde_stable(b)
+    if _is_expanded(p):
+        return True
+    if is_call_to(p, "os.path.join") and p.args[1]:
+        return tilde_stable(p.args[1][0])
+    return classify_path(p) != "user"
+
+
+def _same_file(asked: T, path: T, kind: str) -> bool:
+    """the prompt's argument names the file the sink writes"""
+    if asked is path:
+        return True
+    return kind in PANDAS_KINDS and _is_expanded(asked, of=path)
+
+
 def guard_fold(live: T, path: T, prompt: bool,
-               confirm: bool = True) -> Optional[bool]:
+               confirm: bool = True, kind: str = "") -> Optional[bool]:
     flags = _confirm_flags(live)
 
     def assign(a: T) -> Optional[bool]:
         if a.op == "call" and tm.callee_name(a) == CHK:
-            if a.args[1] and a.args[1][0] is path:
+            if a.args[1] and _same_file(a.args[1][0], path, kind):
                 return prompt
             return None
         if a.op == "call" and tm.callee_name(a) == "builtins.isinstance":
@@ -245,10 +296,11 @@ def check(ctx):
 
     for (q, res, e, p, kind) in subject:
         ctx.analysed_fn(q)
-        declined = guard_fold(e.live, p, prompt=False)
-        accepted = guard_fold(e.live, p, prompt=True)
+        declined = guard_fold(e.live, p, prompt=False, kind=kind)
+        accepted = guard_fold(e.live, p, prompt=True, kind=kind)
         chks = [a for a in _chk_atoms(e.live)]
-        own = [a for a in chks if a.args[1] and a.args[1][0] is p]
+        own = [a for a in chks
+               if a.args[1] and _same_file(a.args[1][0], p, kind)]
         ok = declined is False
         ctx.ob("C17.2", e, ok,
                f"{kind} in {q}: unreachable when the overwrite prompt for "
@@ -266,7 +318,8 @@ def check(ctx):
         if _confirm_flags(e.live):
             # "with warnings disabled the file is replaced": no answer is
             # needed (or asked for) when the confirm flag is off
-            off = guard_fold(e.live, p, prompt=False, confirm=False)
+            off = guard_fold(e.live, p, prompt=False, confirm=False,
+                             kind=kind)
             ctx.ob("C17.5", e, off is not False,
                    f"{kind} in {q}: with confirmation switched off the file "
                    f"is written without asking" if off is not False else
@@ -304,6 +357,26 @@ def check(ctx):
                f"appends its default format and writes (and silently "
                f"replaces) <path>.png while the overwrite prompt looked at "
                f"<path>", key=f"C17.6:suffix:{q}", path=fmt(p))
+
+    # --------------------------------------------------------------- C17.8
+    # library effect: the pandas writers expand a leading "~" themselves.
+    # The prompt must have looked at the expanded path: either the sink's
+    # path term is already expanded / absolute, or the prompt was asked
+    # about expanduser(<sink path>).
+    for (q, res, e, p, kind) in subject:
+        if kind not in PANDAS_KINDS:
+            continue
+        asked = [a.args[1][0] for a in _chk_atoms(e.live) if a.args[1]]
+        ok = tilde_stable(p) or any(_is_expanded(a, of=p) for a in asked)
+        ctx.ob("C17.8", e, ok,
+               f"{kind} in {q}: the path pandas receives cannot start with "
+               f"'~' (expanded before the prompt), so the file pandas writes "
+               f"is the file the prompt was about" if ok else
+               f"{kind} in {q}: pandas expands a leading '~' of the path "
+               f"{fmt(p)[:60]} itself, but the overwrite prompt examined the "
+               f"literal path: for '~/table.csv' the prompt looks at "
+               f"./~/table.csv while pandas replaces $HOME/table.csv without "
+               f"asking", key=f"C17.8:tilde:{q}:{kind}", path=fmt(p))
 
     # --------------------------------------------------------------- C17.3
     for q, res in sorted(results.items()):
@@ -614,6 +687,20 @@ VARIANTS = [
          find="    if input(msg + \"\\n\") != key:\n        return False\n"
               "    else:\n        return True",
          replace="    return input(msg + \"\\n\") == key", expect="silent"),
+    dict(name="table-tilde-not-expanded", file="evo/tools/pandas_bridge.py",
+         find="    if isinstance(path, (str, os.PathLike)):\n        # pandas expands a leading \"~\" itself: check the file it will write\n        path = os.path.expanduser(path)\n",
+         replace="", expect="fire", rule="C17.8"),
+    dict(name="table-tilde-prompt-on-expanded",
+         file="evo/tools/pandas_bridge.py",
+         find="    if isinstance(path, (str, os.PathLike)):\n        # pandas expands a leading \"~\" itself: check the file it will write\n        path = os.path.expanduser(path)\n"
+              "    if confirm_overwrite and not user.check_and_confirm_overwrite(path):\n",
+         replace="    if confirm_overwrite and not user.check_and_confirm_overwrite(\n"
+                 "            os.path.expanduser(path)):\n",
+         expect="silent"),
+    dict(name="table-tilde-abspath", file="evo/tools/pandas_bridge.py",
+         find="        path = os.path.expanduser(path)\n",
+         replace="        path = os.path.abspath(os.path.expanduser(path))\n",
+         expect="silent"),
     dict(name="is-file-check-dropped", file="evo/tools/user.py",
          find="    if os.path.isfile(file_path):", replace="    if False:",
          expect="fire", rule="C17.4"),
